@@ -211,7 +211,20 @@ def _construct_related_types(etype: tp.ParameterizedType, types, get_subtypes,
             t_args = [t for t in t_args if not t.is_primitive()]
             t_arg = utils.random.choice(t_args)
             type_var_map[t_param] = t_arg
-    return etype.t_constructor.new(list(type_var_map.values()))
+    new_type = etype.t_constructor.new(list(type_var_map.values()))
+    if not ignore_variance:
+        # A type argument that has been re-built from the bound of its type
+        # parameter is not necessarily related to the given type argument.
+        # If the constructed type is not related to the given type, we give
+        # back the given type.
+        is_related = (
+            new_type.is_subtype(etype)
+            if get_subtypes
+            else etype.is_subtype(new_type)
+        )
+        if not is_related:
+            return etype
+    return new_type
 
 
 def to_type(stype, types):
